@@ -15,7 +15,8 @@ Part A  lowest common ancestor
   `lca_spec_unique`          the specification determines the answer
   `find_lca_set_only`        hence the answer depends on the set of lineages only (order, duplicates)
   `lca_deepest_if_no_disagreement`, `lca_first_disagreement`   the two halves of the prose statement
-  `pop_to_rank_spec`, `classify_spec`, `gather_exact`, `count_lca_total`
+  `pop_to_rank_spec`, `classify_spec`, `classify_majority_spec`, `majority_vote_is_first_max`,
+  `gather_exact`, `count_lca_total`
 Part B  summarised counts
   `counts_eq`, `aggregate_table`, `aggregate_once`   every hash is credited to its LCA and to each
                              of its ancestors exactly once (the root only when it is the LCA itself)
@@ -24,18 +25,26 @@ Part C  the database, over all histories of insert / downsample_scaled / JSON sa
                              round trip followed by further insertions)
   `index_is_relation`        h ↦ idx is in the index  ⇔  signature idx was inserted and holds h
   `assignments_exact`, `identifiers_exact`, `reconstruct`, `len_counts_all`
+  `summarize_end_to_end`, `summarize_reachable`, `linsOf_mem`   the property's last sentence as one theorem
+                             about database code and lineage code together
   `json_roundtrip` (+ `json_assignments`, `json_identifiers`, `json_signatures`, `json_lineage_same_taxa`)
   `downsample_entry`, `downsample_commutes`, regression `downsample_keeps_threshold_hash` (D9, repaired)
   `signatures_named`, regression `empty_sketch_counted_and_yielded` (D11, repaired),
   `signatures_count`, `sql_keeps_every_signature`, `sql_downsample_changes_no_answer` (C18.3),
+  `sql_equiv_partial`, `sql_signatures_equiv`, `sql_hashvals_equiv`, `sql_lineage_same_taxa`, `first_word_shapes`
+                             the SQLite form answers as the in-memory form when identifiers are derivable
+                             from names (the complement of finding C18.4)
   `sql_identifiers_absent_hash`, `sql_hash_roundtrip` (C18.6 / C18.7, repaired)
 -/
 import SmVerif.Lemmas.LineageLca
 import SmVerif.Lemmas.LineageAgg
 import SmVerif.Lemmas.LcaDbJson
 import SmVerif.Lemmas.LcaDbSig
+import SmVerif.Lemmas.LcaDbRecon
 import SmVerif.Lemmas.LcaGather
 import SmVerif.Lemmas.LineagePop
+import SmVerif.Lemmas.LcaSummarize
+import SmVerif.Lemmas.LcaSql
 
 namespace Sm.C18
 
@@ -52,37 +61,18 @@ theorem find_lca_spec (ls : List Lineage) (hne : ls ≠ []) :
 
 /-- the specification has exactly one solution -/
 theorem lca_spec_unique {κ : Type} {Ls : List (List κ)} {p p' : List κ} {r r' : Nat}
-    (h : IsLca Ls p r) (h' : IsLca Ls p' r') : p = p' ∧ r = r' := by
-  have hp := isLca_path_unique h h'
-  subst hp
-  refine ⟨rfl, ?_⟩
-  obtain ⟨ks, hnd, hlen, hmem⟩ := h.ext
-  obtain ⟨ks', hnd', hlen', hmem'⟩ := h'.ext
-  rw [← hlen, ← hlen']
-  apply List.Perm.length_eq
-  rw [List.perm_ext_iff_of_nodup hnd hnd']
-  intro a
-  rw [hmem, hmem']
+    (h : IsLca Ls p r) (h' : IsLca Ls p' r') : p = p' ∧ r = r' :=
+  isLca_unique h h'
 
 theorem isLca_congr {κ : Type} {Ls Ls' : List (List κ)} (hm : ∀ l, l ∈ Ls ↔ l ∈ Ls') {p : List κ} {r : Nat}
-    (h : IsLca Ls p r) : IsLca Ls' p r := by
-  obtain ⟨l, hl, hp⟩ := h.onPath
-  obtain ⟨ks, h1, h2, h3⟩ := h.ext
-  refine ⟨⟨l, (hm l).mp hl, hp⟩, fun l hl => h.comparable l ((hm l).mpr hl), ⟨ks, h1, h2, ?_⟩, h.notOne⟩
-  intro k
-  rw [h3]
-  constructor
-  · rintro ⟨l, hl, hp⟩; exact ⟨l, (hm l).mp hl, hp⟩
-  · rintro ⟨l, hl, hp⟩; exact ⟨l, (hm l).mpr hl, hp⟩
+    (h : IsLca Ls p r) : IsLca Ls' p r :=
+  IsLca.congr hm h
 
 /-- the answer depends only on the *set* of taxa sequences: insertion order and repetitions of
     lineages (and the iteration order of the Python set they come from) are irrelevant -/
 theorem find_lca_set_only (ls ls' : List Lineage) (hne : ls ≠ []) (hne' : ls' ≠ [])
-    (hm : ∀ l, l ∈ ls.map canon ↔ l ∈ ls'.map canon) : lcaOf ls = lcaOf ls' := by
-  have h := isLca_congr hm (find_lca_spec ls hne)
-  have h' := find_lca_spec ls' hne'
-  obtain ⟨e1, e2⟩ := lca_spec_unique h h'
-  exact Prod.ext e1 e2
+    (hm : ∀ l, l ∈ ls.map canon ↔ l ∈ ls'.map canon) : lcaOf ls = lcaOf ls' :=
+  lcaOf_congr hne hne' hm
 
 /-- "the deepest lineage if none disagree": reason 0 means the path is one of the lineages and every
     lineage is a prefix of it -/
@@ -265,6 +255,25 @@ theorem classify_spec (counts : List (Lineage × Nat)) (thr : Nat) :
   cases buildTreeFrom Tree.nil
     (List.map Prod.fst (List.filter (fun x => !decide (x.2 < thr)) (mostCommon counts))) <;> rfl
 
+/-- `classify_signature --majority`: the vote is the first LCA, in the order the query hashes were counted,
+    whose count is maximal (`firstMax`); it is reported (`found`, with the taxa it names) iff its count is
+    strictly above the threshold and it names a taxon, otherwise `nomatch` -/
+theorem classify_majority_spec (counts : List (Lineage × Nat)) (thr : Nat) :
+    classifyCounts counts thr true =
+      match firstMax counts with
+      | none => ([], Status.nomatch)
+      | some vc => if vc.2 > thr ∧ canon vc.1 ≠ [] then (canon vc.1, Status.found) else ([], Status.nomatch) :=
+  classifyCounts_majority counts thr
+
+/-- the tie-breaking of `most_common()[0]`: nothing counted before the vote reaches its count, nothing
+    counted after it exceeds it -/
+theorem majority_vote_is_first_max (counts : List (Lineage × Nat)) :
+    (mostCommon counts).head? = firstMax counts ∧
+    match firstMax counts with
+    | none => counts = []
+    | some x => ∃ pre post, counts = pre ++ x :: post ∧ (∀ y ∈ pre, y.2 < x.2) ∧ (∀ y ∈ post, y.2 ≤ x.2) :=
+  ⟨mostCommon_head? counts, firstMax_spec counts⟩
+
 /-- ... and those kept LCAs are exactly the entries of `counts` reaching the threshold, in some order
     (which `find_lca_set_only` shows to be irrelevant) -/
 theorem classify_kept_perm (counts : List (Lineage × Nat)) (thr : Nat) :
@@ -420,40 +429,8 @@ theorem reconstruct {db : Db} {log : List Entry} (hq : QRep db log) :
     (keys db.sketches).Nodup ∧
     (∀ j, ((get? db.sketches j).getD []).Pairwise (· < ·)) ∧
     (∀ j h, h ∈ (get? db.sketches j).getD [] ↔ ∃ e, log[j]? = some e ∧ h ∈ e.kept ∧ h ≤ mhR db.scaled) ∧
-    (∀ j, j ∈ keys db.sketches ↔ ∃ e, log[j]? = some e) := by
-  obtain ⟨h1, h2, h3, h4⟩ := sketches_spec db
-  have hrel : ∀ j h, (∃ s, (h, s) ∈ db.hashvalToIdx ∧ j ∈ s) ↔ ∃ e, log[j]? = some e ∧ h ∈ e.kept := by
-    intro j h
-    rw [← index_is_relation hq h j]
-    unfold Db.idxsOf
-    constructor
-    · rintro ⟨s, hs, hj⟩
-      rw [get?_of_mem_nodup hq.hv_nodup hs]; exact hj
-    · intro hj
-      cases hg : get? db.hashvalToIdx h with
-      | none => simp [hg] at hj
-      | some s => simp [hg] at hj; exact ⟨s, mem_of_get? hg, hj⟩
-  refine ⟨h1, h2, ?_, ?_⟩
-  · intro j h
-    have := h3 j h
-    unfold M at this
-    rw [this]
-    constructor
-    · rintro ⟨s, hs, hj, hle⟩
-      obtain ⟨e, he, hk⟩ := (hrel j h).mp ⟨s, hs, hj⟩
-      exact ⟨e, he, hk, hle⟩
-    · rintro ⟨e, he, hk, hle⟩
-      obtain ⟨s, hs, hj⟩ := (hrel j h).mpr ⟨e, he, hk⟩
-      exact ⟨s, hs, hj, hle⟩
-  · intro j
-    rw [h4 j, hq.identToIdx, vals_identIdx, List.mem_range]
-    constructor
-    · rintro (⟨h, s, hs, hj⟩ | hlt)
-      · obtain ⟨e, he, _⟩ := (hrel j h).mp ⟨s, hs, hj⟩
-        exact ⟨e, he⟩
-      · exact ⟨log[j], List.getElem?_eq_getElem hlt⟩
-    · rintro ⟨e, he⟩
-      exact Or.inr (List.getElem?_eq_some_iff.mp he).1
+    (∀ j, j ∈ keys db.sketches ↔ ∃ e, log[j]? = some e) :=
+  sketches_log hq
 
 /-- hence, when the stored hashes respect the threshold, the rebuilt sketch *is* the inserted one
     (possibly empty): it is present, and any strictly ascending list with the same members equals it -/
@@ -478,26 +455,8 @@ theorem reconstruct_exact {db : Db} {log : List Entry} (hq : QRep db log) {j : N
 /-- `_signatures` with names: every rebuilt sketch carries the name its signature was inserted with, and
     nothing fails -/
 theorem signatures_named {db : Db} {log : List Entry} (hq : QRep db log) :
-    db.signatures = .ok (db.sketches.map (fun p => (p.1, ((log[p.1]?).map Entry.name).getD "", p.2))) := by
-  unfold Db.signatures
-  rw [idxToIdent_eq hq]
-  simp only
-  obtain ⟨_, _, _, h4⟩ := reconstruct hq
-  have hall : ∀ p ∈ db.sketches, ∃ e, log[p.1]? = some e := fun p hp => (h4 p.1).mp (mem_keys_of_mem hp)
-  generalize db.sketches = l at hall
-  induction l with
-  | nil => simp [pure, Except.pure]
-  | cons p ps ih =>
-    obtain ⟨e, he⟩ := hall p (by simp)
-    have hname : get? db.identToName e.ident = some e.name := by
-      rw [hq.identToName]
-      apply get?_of_mem_nodup
-      · rw [keys_eq_map, List.map_map]; exact hq.idents_nodup
-      · exact List.mem_map.mpr ⟨e, List.mem_of_getElem? he, rfl⟩
-    rw [List.mapM_cons, get?_idxIdent, he]
-    simp only [Option.map_some, hname, bind, Except.bind]
-    rw [ih (fun q hq' => hall q (List.mem_cons_of_mem _ hq'))]
-    simp [pure, Except.pure, he]
+    db.signatures = .ok (db.sketches.map (fun p => (p.1, ((log[p.1]?).map Entry.name).getD "", p.2))) :=
+  signatures_named_log hq
 
 /-! ### D11 (repaired in /repo, 74325d9): a sketch that is empty at the database's scaled is yielded
 
@@ -510,6 +469,88 @@ theorem empty_sketch_counted_and_yielded :
     let s1 : Sig := { name := "f", filename := "", ksize := 21, moltype := 0, num := 0, scaled := 10, hashes := [3] }
     let db := (Db.insert (Db.insert (Db.new 21 10 0) s0 "" []).1 s1 "" []).1
     db.len = 2 ∧ db.signatures.toOption = some [(1, "f", [3]), (0, "e", [])] := by decide
+
+/-! ### `summarize`, end to end: database code and lineage code together
+
+   The specification side mentions only the logs of inserted signatures:
+   * `linsOf logs h`      the lineages of the inserted signatures (of all databases) holding `h`;
+   * `specAssigned`       the query hashes for which that list is non-empty;
+   * `specSum logs hashvals ign S`  total weight (count, or 1 with `--ignore-abundance`) of the assigned query
+                          hashes whose LCA `(lcaOf (linsOf logs h)).1` satisfies `S`;
+   * `lcaTotal … l`       the same for "LCA = l" (what the threshold is compared with). -/
+
+/-- for databases that represent their logs (every reachable database does: `history_invariant`),
+    `summarize(hashvals, dblist, threshold, ignore_abundance)` never fails, and the count it reports for
+    lineage `p` is the total weight of the query hashes `h` whose inserted-signature lineages have an LCA
+    credited to `p` (the LCA itself or an extension of `p`; the root only for itself) and reaching the
+    threshold — every hash once, with its own weight.  This composes `assignments_exact`, `gather_exact`,
+    `find_lca_set_only`, `counts_eq` and `aggregate_once`. -/
+theorem summarize_end_to_end (dbs : List (Db × List Entry)) (hq : ∀ p ∈ dbs, QRep p.1 p.2)
+    (hashvals : List (Nat × Nat)) (hnd : (keys hashvals).Nodup) (thr : Nat) (ign : Bool) :
+    ∃ agg, summarizeWith (lookDbs (dbs.map Prod.fst)) hashvals thr ign = .ok agg ∧
+      ∀ p, val agg p = specSum (dbs.map Prod.snd) hashvals ign
+        (fun l => decide (credit l p) && decide (thr ≤ lcaTotal (dbs.map Prod.snd) hashvals ign l)) := by
+  have hw : ∀ h ∈ keys hashvals,
+      (wOf (if ign || hashvals.isEmpty then none else some hashvals) h).isSome := by
+    intro h hh
+    by_cases hc : (ign || hashvals.isEmpty) = true
+    · simp [hc, wOf]
+    · simp only [hc, Bool.false_eq_true, if_false, wOf]
+      exact get?_isSome_iff.mpr hh
+  obtain ⟨counts, hc⟩ := countLca_gather_ok (lookDbs (dbs.map Prod.fst)) (keys hashvals) _ hw
+  refine ⟨aggregate counts thr, ?_, ?_⟩
+  · unfold summarizeWith
+    simp only [hc]
+  · intro p
+    rw [aggregate_once hc thr p]
+    have hcounts : ∀ l, val counts l = lcaTotal (dbs.map Prod.snd) hashvals ign l := by
+      intro l
+      rw [(counts_eq hc l).2]
+      exact hashSum_eq_specSum dbs hq hashvals hnd ign _
+    have hS : (fun l => decide (credit l p) && decide (thr ≤ val counts l)) =
+        (fun l => decide (credit l p) && decide (thr ≤ lcaTotal (dbs.map Prod.snd) hashvals ign l)) := by
+      funext l; rw [hcounts l]
+    rw [hS]
+    exact hashSum_eq_specSum dbs hq hashvals hnd ign _
+
+/-- ... for every database reachable by insertions, downsamplings and JSON round trips -/
+theorem summarize_reachable (ksize scaled moltype : Nat) (ops : List Op)
+    (hashvals : List (Nat × Nat)) (hnd : (keys hashvals).Nodup) (thr : Nat) (ign : Bool) :
+    let r := run (Db.new ksize scaled moltype) [] ops
+    ∃ agg, summarizeWith (lookDbs [r.1]) hashvals thr ign = .ok agg ∧
+      ∀ p, val agg p = specSum [r.2] hashvals ign
+        (fun l => decide (credit l p) && decide (thr ≤ lcaTotal [r.2] hashvals ign l)) := by
+  intro r
+  have := summarize_end_to_end [(r.1, r.2)]
+    (by intro p hp; simp only [List.mem_cons, List.not_mem_nil, or_false] at hp; subst hp
+        exact history_invariant ksize scaled moltype ops) hashvals hnd thr ign
+  simpa using this
+
+/-- the specification's lineage list for `h` is what the statement says: the lineages of the inserted
+    signatures that hold `h` (at the database's scaled) and have a lineage -/
+theorem linsOf_mem (logs : List (List Entry)) (h : Nat) (l : Lineage) :
+    l ∈ linsOf logs h ↔
+      ∃ log ∈ logs, ∃ (i : Nat) (e : Entry), log[i]? = some e ∧ h ∈ e.kept ∧ e.lineage = l ∧ l ≠ [] := by
+  unfold linsOf
+  rw [List.mem_flatten]
+  constructor
+  · rintro ⟨ls, hls, hl⟩
+    obtain ⟨log, hlog, rfl⟩ := List.mem_map.mp hls
+    obtain ⟨i, hi, hla⟩ := List.mem_filterMap.mp hl
+    obtain ⟨e, he, hk⟩ := mem_idxsSpec.mp hi
+    unfold lineageAt at hla
+    rw [he] at hla
+    by_cases hne : e.lineage = []
+    · simp [hne] at hla
+    · simp only [hne, if_false, Option.some.injEq] at hla
+      exact ⟨log, hlog, i, e, he, hk, hla, hla ▸ hne⟩
+  · rintro ⟨log, hlog, i, e, he, hk, hla, hne⟩
+    refine ⟨_, List.mem_map.mpr ⟨log, hlog, rfl⟩, ?_⟩
+    apply List.mem_filterMap.mpr
+    refine ⟨i, mem_idxsSpec.mpr ⟨e, he, hk⟩, ?_⟩
+    unfold lineageAt
+    rw [he]
+    simp [hla, hne]
 
 /-! ### JSON save / load -/
 
@@ -651,18 +692,8 @@ theorem sql_downsample_changes_no_answer {s s' : SqlDb} {S : Nat} (h : s.downsam
     exact ⟨rfl, fun _ _ => rfl, fun _ => rfl, rfl, rfl⟩
 
 /-- every inserted signature is rebuilt exactly once: `signatures()` has as many items as `len(db)` -/
-theorem signatures_count {db : Db} {log : List Entry} (hq : QRep db log) : db.sketches.length = log.length := by
-  obtain ⟨h1, _, _, h4⟩ := reconstruct hq
-  have hp : (keys db.sketches).Perm (List.range log.length) := by
-    rw [List.perm_ext_iff_of_nodup h1 List.nodup_range]
-    intro j
-    rw [h4 j, List.mem_range]
-    constructor
-    · rintro ⟨e, he⟩; exact (List.getElem?_eq_some_iff.mp he).1
-    · intro hlt; exact ⟨log[j], List.getElem?_eq_getElem hlt⟩
-  have := hp.length_eq
-  rw [keys_eq_map] at this
-  simpa using this
+theorem signatures_count {db : Db} {log : List Entry} (hq : QRep db log) : db.sketches.length = log.length :=
+  signatures_count_log hq
 
 /-- the SQLite form is built from `signatures()`, so (D11 repaired) it now has a row for every inserted
     signature, including those that hold no hash at the database's scaled: `len` agrees with the source -/
@@ -677,7 +708,63 @@ theorem sql_keeps_every_signature {db : Db} {log : List Entry} (hq : QRep db log
     · cases h
     · simp only [Except.ok.injEq] at h
       subst h
-      simp [SqlDb.len, signatures_count hq, len_counts_all hq]
+      simp [SqlDb.len, length_numberFrom, signatures_count hq, len_counts_all hq]
+
+/-! ### the SQLite form agrees with the in-memory form when identifiers are derivable from names
+
+   `SqlOk db log` (Lemmas/LcaSql.lean) is the case finding C18.4 excludes: every signature has a name whose
+   first word (`firstWord`, the model of `name.split(" ")[0]`, structurally recursive on characters and
+   compared with `String.splitOn` and with Python's `split` on every `sig` op of the stream) is the identifier
+   it was inserted with; a signature without lineage does not collide, after `name.split(".")[0]`
+   (`dotPrefix`), with the identifier of one that has a lineage; stored hashes respect the threshold.
+
+   FULL STATEMENT (not proved / false, finding C18.4): the same without `SqlOk` — e.g. a signature named
+   "GCF_1.1 E coli" inserted under its full name loses its lineage in the SQLite form. -/
+
+/-- `get_lineage_assignments` on the SQLite form: exactly the lineages the in-memory form reports, each as the
+    taxonomy table returns it (`sqlKeep`: names by position, trailing empty names stripped — the same taxa by
+    `sql_lineage_same_taxa`), up to the order of the answer (row order, which the protocol canonicalises) -/
+theorem sql_equiv_partial {db : Db} {log : List Entry} (hq : QRep db log) (hok : SqlOk db log)
+    {s : SqlDb} (h : db.toSql = .ok s) (x : Nat) :
+    ∃ ls ls', db.getLineageAssignments x = .ok ls ∧ s.getLineageAssignments x = .ok ls' ∧
+      ls'.Perm (ls.filterMap sqlKeep) :=
+  sql_assignments_perm hq hok h x
+
+/-- a lineage along `taxlist()` names the same taxa after its passage through the taxonomy table -/
+theorem sql_lineage_same_taxa {l : Lineage} (h : Positional l) : canon (sqlLin l) = canon l :=
+  canon_sqlLin h
+
+/-- `signatures()` of the SQLite form: the same (name, sketch) pairs as the in-memory form, in the same
+    order (no hypothesis on identifiers needed) -/
+theorem sql_signatures_equiv {db : Db} {log : List Entry} (hq : QRep db log) {s : SqlDb} (h : db.toSql = .ok s) :
+    ∃ sigs, db.signatures = .ok sigs ∧
+      s.signatures.map (fun r => (r.2.1, r.2.2)) = sigs.map (fun g => (g.2.1, g.2.2)) :=
+  sql_signatures_eq hq h
+
+/-- `hashvals` of the SQLite form: the same set of hash values (64-bit values) -/
+theorem sql_hashvals_equiv {db : Db} {log : List Entry} (hq : QRep db log) (hok : SqlOk db log)
+    (hu : ∀ e ∈ log, ∀ h ∈ e.kept, h < 2 ^ 64) {s : SqlDb} (h : db.toSql = .ok s) (x : Nat) :
+    x ∈ s.hashvals ↔ x ∈ db.hashvals :=
+  sql_hashvals_mem hq hok hu h x
+
+/-- the two shapes of names for which `SqlOk.derivable` holds by construction: a name without a space
+    inserted under itself, and `"<ident> <anything>"` inserted under `<ident>` -/
+theorem first_word_shapes :
+    (∀ s : String, ' ' ∉ s.toList → firstWord s = s) ∧
+    (∀ a b : List Char, ' ' ∉ a → firstWord (String.ofList (a ++ ' ' :: b)) = String.ofList a) ∧
+    (∀ s : String, '.' ∉ s.toList → dotPrefix s = s) ∧
+    (∀ a b : List Char, '.' ∉ a → dotPrefix (String.ofList (a ++ '.' :: b)) = String.ofList a) :=
+  ⟨fun _ h => firstWord_of_no_space h, firstWord_ident_space, fun _ h => dotPrefix_of_no_dot h, dotPrefix_dot⟩
+
+/-- finding C18.4, kernel-checked on the model of the code as it stands: a signature named
+    "GCF_1.1 E coli" inserted under its default identifier (the full name) has its lineage in the in-memory
+    form and none in the SQLite form — `_build_index` looks under "GCF_1.1", then under "GCF_1" -/
+theorem sql_lineage_lost_counterexample :
+    let sig : Sig := { name := "GCF_1.1 E coli", filename := "", ksize := 21, moltype := 0, num := 0, scaled := 10, hashes := [5] }
+    let db := (Db.insert (Db.new 21 10 0) sig "" [(0, 1), (1, 2)]).1
+    firstWord sig.name = "GCF_1.1" ∧ dotPrefix sig.name = "GCF_1" ∧
+    (db.getLineageAssignments 5).toOption = some [[(0, 1), (1, 2)]] ∧
+      (db.toSql.toOption.map (fun s => (s.getLineageAssignments 5).toOption)) = some (some []) := by decide
 
 /-- C18.6 (repaired): a hash nobody holds has no identifiers on the SQLite form either -/
 theorem sql_identifiers_absent_hash (s : SqlDb) (h : Nat) (hh : s.idxsOf h = []) :
@@ -713,6 +800,21 @@ example :
   simp [run, stepDb, stepLog, Db.insert, Db.new, Sig.downTo, Db.getIdentIndex, Db.getLineageId, Sig.str,
     Db.idxsOf, addHashes, Dict.get?, Dict.set, Dict.contains, Dict.addSet, entryOf, Db.getLineageAssignments,
     List.foldlM, bind, Except.bind, pure, Except.pure]
+
+/-- the SQLite form of a database whose identifier is the first word of the name: the lineage comes back with
+    its interior empty name kept and the trailing one stripped -/
+example :
+    let sig : Sig := { name := "GCF_1.1 E coli", filename := "", ksize := 21, moltype := 0, num := 0, scaled := 10, hashes := [5] }
+    let db := (Db.insert (Db.new 21 10 0) sig "GCF_1.1" [(0, 1), (1, 0), (2, 3), (3, 0)]).1
+    (db.getLineageAssignments 5).toOption = some [[(0, 1), (1, 0), (2, 3), (3, 0)]] ∧
+      (db.toSql.toOption.map (fun s => (s.getLineageAssignments 5).toOption)) =
+        some (some [[(0, 1), (1, 0), (2, 3)]]) := by decide
+
+/-- majority vote: two LCAs with the same count — the one counted first wins; at threshold 2 a count of 2 is
+    not enough (`count > threshold`) -/
+example :
+    classifyCounts [([(0, 1)], 2), ([(0, 2)], 2), ([(0, 3)], 1)] 1 true = ([(0, 1)], Status.found) ∧
+    classifyCounts [([(0, 1)], 2), ([(0, 2)], 2), ([(0, 3)], 1)] 2 true = ([], Status.nomatch) := by decide
 
 /-- C18.8 (repaired), regression example: save/load, then insert another signature holding a hash that
     is already indexed and a new one; the loaded database answers for both, with the old lineage read
